@@ -2,6 +2,7 @@ package e2
 
 import (
 	"fmt"
+	"strings"
 	"testing"
 	"time"
 
@@ -20,6 +21,7 @@ type c13path struct {
 	Retain   bool   `json:"will_retain"`
 	Mount    string `json:"mount_point"`
 	Cause    string `json:"cause"`
+	Payload  string `json:"will_payload"`
 }
 
 func c13paths() []c13path {
@@ -37,11 +39,14 @@ func c13paths() []c13path {
 				for q := int32(0); q <= 2; q++ {
 					for _, r := range []bool{false, true} {
 						for _, mp := range []string{"", "m1"} {
-							for _, c := range []string{"disconnect", "drop", "keepalive", "protocol-error", "leave"} {
-								if c == "leave" && (n == 1 || (len(ws) == 1 && ws[0] == 1)) {
+							for _, c := range []string{"disconnect", "drop", "keepalive", "protocol-error", "leave", "disconnect-then-leave-reordered-gossip"} {
+								if strings.Contains(c, "leave") && (n == 1 || (len(ws) == 1 && ws[0] == 1)) {
 									continue
 								}
-								out = append(out, c13path{n, ws, tp, q, r, mp, c})
+								out = append(out, c13path{n, ws, tp, q, r, mp, c, "last-words"})
+								if q == 1 && !r {
+									out = append(out, c13path{n, ws, tp, q, r, mp, c, ""}) // an empty will payload is legal
+								}
 							}
 						}
 					}
@@ -87,8 +92,12 @@ func TestC13Wills(t *testing.T) {
 				fw := w.NewClient("foreign", p.Nodes, AckAll)
 				fw.Connect(ConnectOpts{ClientID: "foreign", KeepAlive: 600, User: foreign})
 				fw.Subscribe(1, 1, "#")
+				if p.Cause == "disconnect-then-leave-reordered-gossip" {
+					w.Step()
+					w.GossipHold = func(int) bool { return true } // the dying session's record and its removal travel late
+				}
 				d := w.NewClient("dying", 1, AckAll)
-				if d.Connect(ConnectOpts{ClientID: "dying", KeepAlive: 2, User: user, WillTopic: p.Topic, WillMsg: "last-words", WillQos: p.Qos, WillRetain: p.Retain}) != 0 {
+				if d.Connect(ConnectOpts{ClientID: "dying", KeepAlive: 2, User: user, WillTopic: p.Topic, WillMsg: p.Payload, WillQos: p.Qos, WillRetain: p.Retain}) != 0 {
 					rep.HarnessError("connect")
 					return
 				}
@@ -105,6 +114,14 @@ func TestC13Wills(t *testing.T) {
 					d.SendRaw(EncodeConnect(&packet.Connect{Header: &packet.Header{}, ClientId: []byte("dying"), KeepaliveTimer: 2, Clean: true}))
 				case "leave":
 					w.Leave(1)
+				case "disconnect-then-leave-reordered-gossip":
+					d.Disconnect()
+					w.Step()
+					// the removal overtakes the creation on its way to the survivors
+					w.GossipHold = nil
+					w.DeliverAll(true)
+					w.Step()
+					w.Leave(1)
 				}
 				w.Step()
 				w.Idle(10 * time.Second)
@@ -114,7 +131,7 @@ func TestC13Wills(t *testing.T) {
 					return
 				}
 				for _, x := range ws {
-					if p.Cause == "leave" && x.node == 1 {
+					if strings.Contains(p.Cause, "leave") && x.node == 1 {
 						continue
 					}
 					var got []*packet.Publish
@@ -122,12 +139,12 @@ func TestC13Wills(t *testing.T) {
 						got = append(got, pk)
 					}
 					want := 0
-					if p.Cause != "disconnect" && refMatchTopic(x.filter, p.Topic) {
+					if !strings.HasPrefix(p.Cause, "disconnect") && refMatchTopic(x.filter, p.Topic) {
 						want = 1
 					}
 					wills := 0
 					for _, pk := range got {
-						if string(pk.Payload) == "last-words" {
+						if string(pk.Payload) == p.Payload && (p.Payload != "" || string(pk.Topic) == p.Topic) {
 							wills++
 							if string(pk.Topic) != p.Topic {
 								viol("c13-will-topic-altered", "watcher %s received the will on topic %q, the client wrote %q", x.c.Name, pk.Topic, p.Topic)
@@ -150,13 +167,13 @@ func TestC13Wills(t *testing.T) {
 						return
 					}
 				}
-				if !(p.Cause == "leave" && p.Nodes == 1) && !(p.Cause == "leave" && fw.Node.ID == 1) {
+				if !(strings.Contains(p.Cause, "leave") && fw.Node.ID == 1) {
 					if n := len(fw.Publishes()); n != 0 {
 						viol("c13-will-crossed-mount-points", "a watcher in another mount point received %d message(s): %s", n, fw.InboxDigest())
 						return
 					}
 				}
-				if p.Cause != "disconnect" {
+				if !strings.HasPrefix(p.Cause, "disconnect") {
 					MarkNontrivial(fmt.Sprintf("%+v", p))
 					rep.Nontrivial++
 				}
